@@ -5,7 +5,7 @@ from common import TranslatorAbort
 
 STATIC = ["Base/Syntax.v", "Model/PyNum.v", "Model/IR.v", "Model/VM.v", "Model/Elab.v", "Model/Lower.v", "Spec/RefSem.v", "Proofs/OpsAgree.v",
           "Proofs/LowerExprProofs.v", "Proofs/ElabExprProofs.v", "Proofs/ReturnExprProofs.v", "Proofs/CallAgreeProofs.v", "Proofs/ReturnExprExample.v", "Harness/FragLib.v",
-          "Proofs/LowerStmtProofs.v", "Proofs/ElabStmtProofs.v", "Proofs/StraightLineProofs.v", "Proofs/StraightLineExample.v", "Harness/FragLib2.v"]
+          "Proofs/LowerStmtProofs.v", "Proofs/ElabStmtProofs.v", "Proofs/StraightLineProofs.v", "Proofs/StraightLineExample.v", "Harness/FragLib2.v", "Proofs/FlowLowerProofs.v", "Proofs/FlowFuncProofs.v", "Harness/FlowLib.v"]
 
 
 def gen_programs(ctx, n):
@@ -97,6 +97,55 @@ def straight_programs(ctx, n):
     return out
 
 
+def conditional_programs(ctx, n):
+    """functions with if / if-else statements (nested, with blocks) over assignments, between declarations, ending in a return: the fragment
+    of theorem C01_conditional_lowering_partial"""
+    from nslgen import Module, Global, Func, Arg, Block, Ret, B, V, Decl, ES, A, If
+    rng = ctx.rng
+    out = []
+    for k in range(n):
+        g = gentyped.TGen(rng, floats=(k % 3 != 0), arrays=False, structs=False, calls=False, side_effects=False, max_depth=2)
+        genv = gentyped.Env(); genv.vars = {"g0": "int", "g1": "float"}
+        params = [("int", "a"), ("float", "b"), ("int", "c")][: rng.choice([2, 3])]
+        env = gentyped.Env(genv); env.bounds = {}
+        for t, nm in params:
+            env.vars[nm] = t
+        def assign():
+            t = rng.choice(["int", "float"]) if k % 3 != 0 else "int"
+            cands = [nm for nm, ty in env.all().items() if ty == t]
+            return ES(A(V(rng.choice(cands)), tg_expr(g, env, t), rng.choice(["=", "=", "+="])))
+        def branch(depth):
+            stmts = []
+            for _ in range(rng.choice([1, 2])):
+                if depth > 0 and rng.random() < 0.35:
+                    stmts.append(cond(depth - 1))
+                else:
+                    stmts.append(assign())
+            return Block(stmts)
+        def cond(depth):
+            c = tg_expr(g, env, "int")
+            return If(c, branch(depth), branch(depth) if rng.random() < 0.6 else None)
+        body = []
+        for q in range(rng.choice([2, 3, 4])):
+            r_ = rng.random()
+            if r_ < 0.3:
+                t = rng.choice(["int", "float"]) if k % 3 != 0 else "int"
+                x = "v%d" % q
+                body.append(Decl(t, x, tg_expr(g, env, t) if rng.random() < 0.7 else None)); env.vars[x] = t
+            elif r_ < 0.75:
+                body.append(cond(2))
+            else:
+                body.append(assign())
+        rt = rng.choice(["int", "float"]) if k % 3 != 0 else "int"
+        body.append(Ret(tg_expr(g, env, rt)))
+        m = Module([Global("int", "g0"), Global("float", "g1"), Func("f0", [Arg(t, nm) for t, nm in params], rt, Block(body), export=True)])
+        calls = [{"fn": "f0", "args": {nm: (rng.randrange(-6, 9) if t == "int" else rng.choice([0.5, -1.25, 3.0, 0.1, 7.5, -0.3])) for t, nm in params},
+                  "globals": {"g0": rng.randrange(-4, 7), "g1": rng.choice([0.25, -2.0, 1.1])} if c == 0 else {}, "read_globals": ["g0", "g1"]} for c in range(3)]
+        text, _ = nslgen.render(m, ["canonical", "dense", "wild", "lines"][k % 4], rng)
+        out.append((m, calls, text))
+    return out
+
+
 def tg_expr(g, env, t):
     return g.expr(env, t, 2, pure=True)
 
@@ -118,6 +167,8 @@ def run(ctx):
     progs = progs + return_programs(ctx, nret)
     straight_from = len(progs)
     progs = progs + straight_programs(ctx, 60 if ctx.tier == "quick" else 1500)
+    flow_from = len(progs)
+    progs = progs + conditional_programs(ctx, 60 if ctx.tier == "quick" else 1500)
     jobs = [vmcases.job(text, calls, optimize=False) for (m, calls, text) in progs]
     res = ctx.run_impl("compile_impl.py", jobs, nworkers=16)
     blocks, meta, direct_bad = [], [], []
@@ -125,7 +176,9 @@ def run(ctx):
         if not r["accept"] or "ir" not in r or "calls" not in r:
             direct_bad.append((text, r)); continue
         d, e = vmcases.case_block(k, m, r, calls)
-        if k >= straight_from:
+        if k >= flow_from:
+            e = "(%s + 1000 * (200000000 + flow_case M_%d))" % (e, k)
+        elif k >= straight_from:
             e = "(%s + 1000 * (100000000 + straight_case M_%d))" % (e, k)
         elif k >= ret_from:
             e = "(%s + 1000 * frag_case M_%d)" % (e, k)        # how many functions of the module lie in the proved fragment
@@ -138,13 +191,17 @@ def run(ctx):
     bad_spec, bad_model = [], []
     frag = {"functions": 0, "inside_proved_fragment": 0, "literal_test_passed": 0}
     sfrag = {"functions": 0, "inside_proved_fragment": 0, "literal_test_passed": 0, "lowered_ir_also_in_forwarding_fragment": 0}
+    ffrag = {"functions": 0, "inside_proved_fragment": 0, "of_which_with_a_conditional": 0}
     for x, c in zip(meta, codes):
         if c is None:
             continue
         if c >= 1000:
             fc = c // 1000
             c = c % 1000
-            if fc >= 100000000:
+            if fc >= 200000000:
+                fc -= 200000000
+                ffrag["functions"] += fc // 10000; ffrag["inside_proved_fragment"] += (fc // 100) % 100; ffrag["of_which_with_a_conditional"] += fc % 100
+            elif fc >= 100000000:
                 fc -= 100000000
                 sfrag["functions"] += fc // 1000000; sfrag["inside_proved_fragment"] += (fc // 10000) % 100
                 sfrag["literal_test_passed"] += (fc // 100) % 100; sfrag["lowered_ir_also_in_forwarding_fragment"] += fc % 100
@@ -167,11 +224,12 @@ def run(ctx):
                        "assignment, ++/--, if/else, for/while/do with break/continue, early return, overloaded and recursive helper calls) in four layouts, three "
                        "invocations each with random arguments and globals; the real IR is dumped and (i) compared for equality with the lowering model's IR, "
                        "(ii) executed by the VM model, (iii) the source is executed by the reference semantics; all three compared with the real VM's results inside Coq. "
-                       "Every program is distinct (by text) and counted non-trivial (contains control flow or calls). Plus modules of straight-line functions (declarations, assignments, return) and of functions `return <pure scalar expression>;` "
+                       "Every program is distinct (by text) and counted non-trivial (contains control flow or calls). Plus modules of functions with nested if / if-else statements over assignments (the fragment of the conditional-lowering theorem), of straight-line functions (declarations, assignments, return) and of functions `return <pure scalar expression>;` "
                        "(the fragment of the end-to-end theorem): for each, the boolean fragment test is evaluated inside Coq on the source AST and the same three-way comparison is made.")
     ctx.cov["samples"] = [{"source": t[:600], "calls": c, "impl": r["calls"]} for t, c, r in meta[:2]]
     stats["return_expression_functions"] = frag
     stats["straight_line_functions"] = sfrag
+    stats["conditional_functions"] = ffrag
     ctx.extra["input_distribution"] = stats
     ctx.extra["disagreements_checked"] = len(codes)
     if bad_spec or direct_bad:
